@@ -129,7 +129,7 @@ def inputs(mutator, rng, n):  # noqa: C901
 
     for _ in range(n):
         bad = rng.random() < 0.7
-        if mutator in ('CSSStyleSheet.cssText', 'CSSStyleSheet._setCssTextWithEncodingOverride'):
+        if mutator in ('CSSStyleSheet.cssText',):
             if bad:
                 kinds = ['style', 'style', 'media', 'page', 'fontface', 'comment', 'unknown']
                 k = rng.randrange(0, 4)
